@@ -69,6 +69,12 @@ PROPS["C12"] = {
     "level_note": "AES-256-GCM idealised (opens only what was sealed with the same key, nonce, AD; any alteration is detected); SymmetricKey::derive / kdf256 idealised as injective in (seed, label)",
 }
 
+PROPS["C07"] = {
+    "modules": ["CC.Props.C07"], "campaigns": [hist("C07", BOTH)], "quick_configs": ONE,
+    "level_text": "Lean theorem `binding`: from injectivity of the three hashes and fixed block sizes (read from the source), a received value carrying an honest tag that passes the recomputed-tag and trap checks is the honest encapsulation component by component, with the same seed; hence any reordering / dropping / duplication / splice / byte change is rejected; the hash feed order and acceptance checks of all five functions are re-extracted from primitives.rs on every run and compared with the modelled order by `decide`. Specification oracle on the real code: every byte position x bit of four encapsulation shapes, every truncation, every structural operator, authorised and unauthorised keys: never a secret",
+    "level_note": "SHA3-256/384 idealised as injective (hypotheses of the theorem, not axioms); tag forgery excluded (2^-128); AEAD idealised for the PKE / header part; tools/gen_tables.py extraction of hasher.update sequences trusted",
+}
+
 # operations whose ok/err status or outcome is what the property talks about
 BEHAVIOUR_KINDS = {"behaviour", "status", "panic"}
 
